@@ -19,6 +19,7 @@ def r7(ctx):
 
 
 RULES = {
+    "C04.RG": lambda ctx: __import__("rules.foundations", fromlist=["x"]).no_global_state(ctx, "C04.RG"),
     # lookup on an index map and through the DecodedMap dispatch: section by greatest_lower_bound, relative position, same query
     "C04.R8": lambda ctx: __import__("rules.bldrules", fromlist=["x"]).index_lookup(ctx, "C04.R8"),
     "C04.RL": lambda ctx: __import__("rules.common", fromlist=["x"]).loop_exit_rule(ctx, "C04.RL", {'utils::greatest_lower_bound': 1}),
